@@ -45,6 +45,7 @@ def run(rep):
                         "Go's runtime re-randomises map iteration order on every range statement (so repeated runs sample the permutations the theorems quantify over)",
                         "packages on which goderive does not terminate or fails are compared by exit status and normalised message only (crashes and hangs are C09's, compile failures C01's)"]
     facts = runs.facts_and_proof(rep, "C08")
+    rep.cov["traces_validated_against_impl"] = runs.import_tie(rep, (150 if rep.tier == "quick" else 1200))
     rep.cov["facts"] = {k: facts.get(k) for k in ("mapRangeSites", "mutablePackageVars", "packageVars")}
     _, binp = common.build_goderive()
     rnd = random.Random(rep.seed)
@@ -150,12 +151,16 @@ def run(rep):
         vjobs = [(v, i) for v in variants for i in range(reps)]
 
         def variant_run(job):
-            (name, cwd, args, expect, drop), i = job
-            root = fresh(src, work, "v-%d-%s-%d" % (abs(hash((name, cwd, tuple(args)))) % 10 ** 8, name, i), drop)
-            args = [a.replace("ABS/", root + "/") for a in args]
-            r = runs.goderive(binp, os.path.join(root, cwd) if cwd else root, args, timeout=TIMEOUT * 2)
-            r["sha"] = shas(root, pkgs)
-            shutil.rmtree(root, ignore_errors=True)
+            (name, cwd, args0, expect, drop), i = job
+            r = None
+            for attempt, limit in ((0, TIMEOUT * 2), (1, TIMEOUT * 6)):  # a timeout under machine load: once more, long limit
+                root = fresh(src, work, "v-%d-%s-%d-%d" % (abs(hash((name, cwd, tuple(args0)))) % 10 ** 8, name, i, attempt), drop)
+                args = [a.replace("ABS/", root + "/") for a in args0]
+                r = runs.goderive(binp, os.path.join(root, cwd) if cwd else root, args, timeout=limit)
+                r["sha"] = shas(root, pkgs)
+                shutil.rmtree(root, ignore_errors=True)
+                if not r["timeout"]:
+                    break
             return r
 
         vres = runs.par(variant_run, vjobs)
